@@ -15,9 +15,9 @@ import (
 // exit code does main2 use, and the table of panic( / os.Exit / *.Fatal* call sites in the packages the
 // commands drive, keyed by package.function and ordinal (never by line).
 //
-//	g_ints_target      IndirectCalls / MyCallers / ProcessExcludeAndPassthrough: no `<map lookup>.Endpoints` field
-//	                   read, and each has an `if <x> == nil { return }` test (undefined targets are skipped)
-//	g_ints_walk_once   WalkPassthrough has a comma-ok map test that returns (each endpoint expanded once)
+//	g_ints_target      IndirectCalls / MyCallers / ProcessExcludeAndPassthrough and every function of ints_view.go:
+//	                   no `<map lookup>.Endpoints|Attrs|IsPubsub` field read (only the nil-safe getters)
+//	g_ints_walk_once   WalkPassthrough has a comma-ok map test that returns (an endpoint being expanded is not re-entered)
 //	g_dm_path          DrawRelation: every Path[<literal>] sits in a function that tests len(...Path...)
 //	g_swagger_rest     populateEndpoint: tests len(...) of the split endpoint name before indexing [1]
 //	g_db_path          findTableDepth (+ foreignKeyTarget): no unchecked Path[<literal>]
@@ -39,12 +39,16 @@ func findFunc(gf *goFile, recv, name string) *ast.FuncDecl {
 }
 
 // `X[...].Endpoints` : a struct field read on the result of a map lookup (nil for a missing key)
-func hasFieldOnLookup(fd *ast.FuncDecl, field string) bool {
+func hasFieldOnLookup(fd *ast.FuncDecl, fields ...string) bool {
 	found := false
 	ast.Inspect(fd.Body, func(n ast.Node) bool {
-		if s, ok := n.(*ast.SelectorExpr); ok && s.Sel.Name == field {
-			if _, isIdx := s.X.(*ast.IndexExpr); isIdx {
-				found = true
+		if s, ok := n.(*ast.SelectorExpr); ok {
+			for _, field := range fields {
+				if s.Sel.Name == field {
+					if _, isIdx := s.X.(*ast.IndexExpr); isIdx {
+						found = true
+					}
+				}
 			}
 		}
 		return true
@@ -245,9 +249,20 @@ func cmdGuards(repo string) (string, error) {
 		if err != nil {
 			return "", err
 		}
-		ok := !hasFieldOnLookup(fd, "Endpoints") && hasNilTestReturn(fd)
-		notes = append(notes, fmt.Sprintf("IntsBuilder.%s: field-on-lookup=%v nil-test-return=%v", fn, hasFieldOnLookup(fd, "Endpoints"), hasNilTestReturn(fd)))
-		gIntsTarget = gIntsTarget && ok
+		bad := hasFieldOnLookup(fd, "Endpoints", "Attrs")
+		notes = append(notes, fmt.Sprintf("IntsBuilder.%s: field-on-lookup=%v", fn, bad))
+		gIntsTarget = gIntsTarget && !bad
+	}
+	// the view draws every dependency the builder found, resolved or not: it must read them nil-safely too
+	gfView, err := parseGo(repo, "pkg/integrationdiagram/ints_view.go")
+	if err != nil {
+		return "", err
+	}
+	for _, fd := range funcDecls(gfView.file) {
+		if fd.Body != nil && hasFieldOnLookup(fd, "Endpoints", "Attrs", "IsPubsub") {
+			notes = append(notes, fmt.Sprintf("ints_view.go %s: field read on a map lookup result", fd.Name.Name))
+			gIntsTarget = false
+		}
 	}
 	_, fdWalk, err := need("pkg/integrationdiagram/ints_builder.go", "IntsBuilder", "WalkPassthrough")
 	if err != nil {
